@@ -880,8 +880,9 @@ fn build_matcher_tree(
                     ));
                 }
 
-                let bracket = args[i - 1];
-                if bracket == "(" {
+                // Nothing at all between the parentheses.  (Looking at the
+                // previous token instead would also refuse `( -name ( )`.)
+                if i == arg_index {
                     return Err(From::from(
                         "invalid expression; empty parentheses are not allowed.",
                     ));
